@@ -35,7 +35,7 @@ import (
 // ---------------------------------------------------------------- case types
 
 type samplerSpec struct {
-	// keepall | dropall | det | rulesfield | rulesdown | dynamic
+	// keepall | dropall | det | rulesfield | rulesdown | dynamic | ruleszero (C04 only)
 	Kind string `json:"kind"`
 	// det: the rate; rulesfield: rate of the keep rule; rulesdown: downstream deterministic rate
 	Rate int `json:"rate,omitempty"`
@@ -245,6 +245,13 @@ func samplerConfig(s samplerSpec) (any, string) {
 		return &config.RulesBasedSamplerConfig{Rules: []*config.RulesBasedSamplerRule{
 			{Name: "keepfield", SampleRate: 1, Conditions: []*config.RulesBasedSamplerCondition{{Field: "keep", Operator: config.Exists}}},
 			{Name: "down", Sampler: &config.RulesBasedDownstreamSampler{DeterministicSampler: &config.DeterministicSamplerConfig{SampleRate: max(s.Rate, 1)}}},
+		}}, "RulesBasedSampler"
+	case "ruleszero":
+		// a matching rule without Drop, without a downstream sampler and without a
+		// positive SampleRate (validation accepts it): such traces are not kept
+		return &config.RulesBasedSamplerConfig{Rules: []*config.RulesBasedSamplerRule{
+			{Name: "keepfield-rate-not-positive", SampleRate: min(s.Rate, 0), Conditions: []*config.RulesBasedSamplerCondition{{Field: "keep", Operator: config.Exists}}},
+			{Name: "keeprest", SampleRate: 1},
 		}}, "RulesBasedSampler"
 	case "dynamic":
 		return &config.DynamicSamplerConfig{SampleRate: int64(max(s.Rate, 1)), ClearFrequency: config.Duration(30 * time.Second), FieldList: []string{"keep"}}, "DynamicSampler"
